@@ -274,6 +274,7 @@ func init() {
 		fr.i.ex.sched.quiesce()
 		return nil
 	})
+	reg(rtPkg+".RealTime", func(fr *frame, args []value) value { return nil })
 	reg(rtPkg+".Yield", func(fr *frame, args []value) value {
 		if fr.i.ex.sched != nil {
 			fr.i.ex.sched.yield()
